@@ -222,3 +222,58 @@ fn panic_alloc_on_claimed() {
     kani::cover!(true, "UNSAT: a panicking allocation method returned normally on a claimed allocator");
     core::mem::forget(g1);
 }
+
+/// the same through the trait-object interface: a panicking typed method of `dyn BumpAllocatorCore` on a claimed
+/// handle ends in the "claimed" panic (an unwinding panic), NOT in the allocation-error handler (which aborts by
+/// default) - C14 "an unwinding panic from panicking ones", C07 "a claimed arena is reported by an unwinding panic",
+/// C17 typed vs. trait-object. The only expected failed check is the one inside error_behavior::panic::claimed.
+#[kani::proof]
+#[kani::unwind(6)]
+#[kani::stub(std::alloc::handle_alloc_error, crate::stubs::hae_stub)]
+fn panic_dyn_alloc_on_claimed() {
+    use bump_scope::traits::{BumpAllocatorCore, BumpAllocatorTyped};
+    set_budget(1);
+    let Ok(bump) = Bump::<VA, S<1, true>>::try_new() else { return };
+    let mut bump = core::mem::ManuallyDrop::new(bump);
+    set_budget(0);
+    let g1 = bump.claim();
+    kani::cover!(true, "REACH: claim taken");
+    let d: &dyn BumpAllocatorCore = &*bump;
+    let which: u8 = kani::any();
+    kani::assume(which < 4);
+    match which {
+        0 => {
+            let _ = d.allocate_layout(core::alloc::Layout::new::<u32>());
+        }
+        1 => {
+            let _ = d.allocate_sized::<u32>();
+        }
+        2 => {
+            let _ = d.allocate_slice::<u16>(3);
+        }
+        _ => d.reserve(1),
+    }
+    kani::cover!(true, "UNSAT: a panicking allocation method of dyn BumpAllocatorCore returned normally on a claimed allocator");
+    core::mem::forget(g1);
+}
+
+/// ... and its try_ twins return Err without reaching any panic
+#[kani::proof]
+#[kani::unwind(6)]
+#[kani::stub(std::alloc::handle_alloc_error, crate::stubs::hae_stub)]
+fn nopanic_dyn_try_alloc_on_claimed() {
+    use bump_scope::traits::{BumpAllocatorCore, BumpAllocatorTyped};
+    set_budget(1);
+    let Ok(bump) = Bump::<VA, S<1, true>>::try_new() else { return };
+    let mut bump = core::mem::ManuallyDrop::new(bump);
+    set_budget(0);
+    let g1 = bump.claim();
+    let d: &dyn BumpAllocatorCore = &*bump;
+    check!(d.try_allocate_layout(core::alloc::Layout::new::<u32>()).is_err(), "C14: try_allocate_layout through dyn succeeded on a claimed allocator");
+    check!(d.try_allocate_sized::<u32>().is_err(), "C14: try_allocate_sized through dyn succeeded on a claimed allocator");
+    check!(d.try_allocate_slice::<u16>(3).is_err(), "C14: try_allocate_slice through dyn succeeded on a claimed allocator");
+    check!(d.try_reserve(1).is_err(), "C14: try_reserve through dyn succeeded on a claimed allocator");
+    check!(d.is_claimed(), "C14: is_claimed through dyn is false while the guard is alive");
+    core::mem::forget(g1);
+    kani::cover!(true, "END: harness ran to completion");
+}
